@@ -14,6 +14,7 @@ import GluonModel.Lemmas.ConnInvalid
 import GluonModel.Lemmas.ConnMsgID
 import GluonModel.Lemmas.ConnMapOrder
 import GluonModel.Lemmas.ConnSpelling
+import GluonModel.Lemmas.ConnPrepared
 import GluonModel.Generated.Facts.Ack
 
 namespace Gluon.C06
@@ -669,6 +670,87 @@ theorem protected_mailbox_partial (cfg : Cfg) (db : DB) (u : Update) (hprot : Na
   | uidValidityBumped => simp [NamesProtected] at hprot
   | noop => simp [NamesProtected] at hprot
   | unknown => simp [NamesProtected] at hprot
+
+/-! ## the states client commands prepare before the update arrives
+
+The theorems above quantify over every index inside `Inv` — so over every state a client can have put a
+mailbox or a message into.  The ones below say so explicitly for the subscription tables, the part of
+the index only clients write (`UNSUBSCRIBE`, `DELETE` of a subscribed mailbox; modelled in
+Model/NamespaceSubs.lean (C14) and run on this index by `clientStep`, Model/ConnClientSubs.lean): the oracle
+walks through kind × client-prepared state (`prep.<Kind>.<state>`) on the real server. -/
+
+/-- **MailboxDeleted does not depend on the subscription** — a known, unprotected mailbox that no
+    client is subscribed to (nothing is recorded in `deleted_subscriptions` when its row is deleted, so
+    nothing of it is there to be taken out again): the update is valid, succeeds with exactly the
+    described effect, every session that has the mailbox selected is told, and `deleted_subscriptions`
+    only loses what it had under that name. -/
+theorem mailboxDeleted_unsubscribed (cfg : Cfg) (db : DB) (rid : RID) (mb : Mbox) (hi : Inv db = true)
+    (hr : rid ≠ cfg.recoveryRID) (hm : db.mboxByRid rid = some mb) (hs : mb.subscribed = false) :
+    Valid cfg db (.mailboxDeleted rid) = true ∧
+    Applied (.mailboxDeleted rid) db (apply cfg db (.mailboxDeleted rid)) ∧
+    (apply cfg db (.mailboxDeleted rid)).evs = [.mailboxDeleted mb.iid] ∧
+    (apply cfg db (.mailboxDeleted rid)).db.delSubs = db.delSubs.filter (fun e => e.1 != mb.name) := by
+  have hv := valid_mailboxDeleted_unsubscribed cfg db rid mb hr hm hs
+  refine ⟨hv, eff_MD cfg db ((inv_iff db).1 hi) rid hv, ?_, ?_⟩ <;>
+    simp [apply, applyMailboxDeleted_unsubscribed cfg db rid mb hr hm hs, Res.ok]
+
+/-- **A successful MailboxDeleted leaves nothing under the mailbox's name** — whatever the
+    subscription was and whatever `deleted_subscriptions` held: afterwards no mailbox and no deleted
+    subscription carries the name (LIST and LSUB no longer show it). -/
+theorem mailboxDeleted_frees_the_name (cfg : Cfg) (db : DB) (rid : RID) (mb : Mbox) (hi : Inv db = true)
+    (hm : db.mboxByRid rid = some mb) (hok : (apply cfg db (.mailboxDeleted rid)).err = none) :
+    (∀ e ∈ (apply cfg db (.mailboxDeleted rid)).db.delSubs, e.1 ≠ mb.name) ∧
+    (apply cfg db (.mailboxDeleted rid)).db.mboxes.any (fun m => m.name == mb.name) = false :=
+  ⟨mailboxDeleted_no_subscription_left cfg db rid mb hm hok,
+   mailboxDeleted_name_free cfg db ((inv_iff db).1 hi) rid mb hm hok⟩
+
+/-- **…so the name can be used again** — after a successful MailboxDeleted a MailboxCreated that
+    gives the name to a new mailbox (under the old remote id or one the index does not know) is a valid
+    update (and therefore applied as described: `apply_effect_MailboxCreated`). -/
+theorem mailboxCreated_valid_after_mailboxDeleted (cfg : Cfg) (db : DB) (rid rid' : RID) (mb : Mbox)
+    (hi : Inv db = true) (hm : db.mboxByRid rid = some mb)
+    (hok : (apply cfg db (.mailboxDeleted rid)).err = none)
+    (hp : rid' ≠ cfg.recoveryRID) (hnew : rid' = rid ∨ db.known rid' = false)
+    (hv : db.gen + 1 < cfg.maxUIDValidity) (hn : db.mboxes.length < cfg.maxMailboxes) :
+    Valid cfg (apply cfg db (.mailboxDeleted rid)).db (.mailboxCreated rid' mb.name) = true := by
+  have hfree := mailboxDeleted_name_free cfg db ((inv_iff db).1 hi) rid mb hm hok
+  obtain ⟨hgen, hmb⟩ := mailboxDeleted_ok_fields cfg db rid mb hm hok
+  simp only [apply] at hok ⊢
+  simp only [Valid, Bool.and_eq_true, bne_iff_ne, ne_eq, Bool.not_eq_true', decide_eq_true_eq]
+  refine ⟨⟨⟨⟨hp, ?_⟩, hfree⟩, by rw [hgen]; exact hv⟩, ?_⟩
+  · simp only [DB.known, DB.mboxByRid, hmb, Option.isSome_eq_false_iff, Option.isNone_iff_eq_none,
+      List.find?_eq_none, List.mem_filter, bne_iff_ne, ne_eq, beq_iff_eq, and_imp]
+    intro m hmm hne heq
+    rcases hnew with h | h
+    · exact hne (heq.trans h)
+    · simp only [DB.known, DB.mboxByRid, Option.isSome_eq_false_iff, Option.isNone_iff_eq_none,
+        List.find?_eq_none, beq_iff_eq] at h
+      exact h m hmm heq
+  · rw [hmb]
+    exact Nat.lt_of_le_of_lt (List.length_filter_le _ _) hn
+
+/-- non-vacuity, and the chain on a concrete index: a client unsubscribes from `mb1` (the C14 model of
+    UNSUBSCRIBE run on this index), the connector deletes it (applied, nothing of the name left), and the
+    name is given to a new mailbox; a client deletes the subscribed `mb1` instead (the deleted subscription
+    outlives the mailbox), and the connector creates a mailbox of that name again and deletes that one -/
+example :
+    (match clientStep sampleDB (.unsubscribe "mb1") with
+     | .ok db1 =>
+       (db1.mboxByRid "mb1").map (·.subscribed) == some false && Inv db1 &&
+       (apply cfgToday db1 (.mailboxDeleted "mb1")).err == none &&
+       !(apply cfgToday db1 (.mailboxDeleted "mb1")).db.known "mb1" &&
+       (apply cfgToday (apply cfgToday db1 (.mailboxDeleted "mb1")).db (.mailboxCreated "mb9" "mb1")).err == none
+     | .error _ => false) = true ∧
+    (match clientStep sampleDB (.delete "mb1") with
+     | .ok db1 =>
+       db1.delSubs == [("mb1", "mb1")] && !db1.known "mb1" && Inv db1 &&
+       (let db2 := (apply cfgToday db1 (.mailboxCreated "mb9" "mb1")).db
+        db2.known "mb9" && db2.delSubs == [("mb1", "mb1")] &&
+        (apply cfgToday db2 (.mailboxDeleted "mb9")).err == none &&
+        (apply cfgToday db2 (.mailboxDeleted "mb9")).db.delSubs == [])
+     | .error _ => false) = true := by
+  decide
+
 
 /-! ## non-vacuity: the hypotheses are satisfiable on a non-trivial index
 
